@@ -57,6 +57,17 @@ numbers are printed, not compared with a constant; spec/Order_Rng.tla is the
 generator's model, Order_Trace validates the printed numbers against it
 (difference = drift; the oracle is that all processes agree).  (d) uncaught
 errors below calls that were handed sets and maps: the stack-trace lines.
+
+Round 4: behaviour that switches above a SIZE THRESHOLD (a fast path or an
+abbreviation that walks the host container only when the collection is
+large).  Pools BIG: sets and maps of 120 and 1 100 strings / sparse ints,
+sent through the enumeration templates (rendering, for, list(),
+comprehensions, spread, destructuring of the first members), through an
+uncaught error of ckl.run and through the call channel (stack-trace lines of
+user functions, methods, nested calls and of every native of the sweep, one
+argument).  Model: table value "rawbig" (OrderOps!RawAt, BigAbove), what-if
+configuration Order_bigraw (SmallBlind: collections up to the threshold show
+nothing), class "big" of the prediction comparison.
 """
 import json
 import math
@@ -153,6 +164,55 @@ ALIKE = {
                "single": True},
 }
 assert ALIKE_BASE + 8 < 100
+
+
+# LARGE collections (round 4): [kind, number of members].  The members are the elements OrderOps!BigBase + rank.
+# Strings: a word and a number ('kiwi7340'); their host order follows the hash seed.  Sparse ints: the host order
+# is the order of the slots (value modulo table size, collisions by construction order), far from ascending.
+BIG_BASE = 1000          # OrderOps!BigBase
+BIG_ABOVE = 2            # OrderOps!BigAbove: the model's scale of "big"
+BIG = {"big120s": ("str", 120), "big1100s": ("str", 1100), "big120i": ("int", 120), "big1100i": ("int", 1100)}
+BIGVALW = ["aleph"] + VALW                                                           # token 100..110
+assert BIGVALW == sorted(BIGVALW)
+_BIGMEM = {}
+
+
+def big_members(pool):
+    """-> [(source literal, rendering inside a list, rendering when printed alone)] in ascending order of the language"""
+    if pool not in _BIGMEM:
+        kind, n = BIG[pool]
+        if kind == "str":
+            ws = sorted({f"{KEYW[i % 8]}{(i * 7919 + 17) % 10007}" for i in range(n)})
+            mem = [(f"'{w}'", w) for w in ws]
+        else:
+            xs = sorted({(i * 7919 + 13) % 100003 + 111 for i in range(n)})          # > 110: no value token among them
+            mem = [(str(x), str(x)) for x in xs]
+        assert len(mem) == n
+        _BIGMEM[pool] = mem
+    return _BIGMEM[pool]
+
+
+def big_rankable(pool):
+    """the ascending order assumed for the pool is the language's: every member is `<` its successor and not the
+    other way round (asked of the interpreter in this process)"""
+    if pool in _TOTAL:
+        return _TOTAL[pool]
+    import_ckl()
+    from ckl.interpreter import Interpreter
+    lits = [m[0] for m in big_members(pool)]
+    try:
+        it = Interpreter(True, False)
+        src = "[" + ", ".join(lits) + "]"
+        v = it.interpret(f"def q = {src}; [[q[i] < q[i + 1], q[i + 1] < q[i], q[i] == q[i + 1]] for i in range({len(lits) - 1})]", "c12")
+        flat = str(v)
+        ok = flat.count("[TRUE, FALSE, FALSE]") == len(lits) - 1
+        if not ok:
+            _WHY[pool] = "the members are not in ascending order of `<`"
+    except Exception as e:
+        ok = False
+        _WHY[pool] = f"asking the interpreter failed: {type(e).__name__}"
+    _TOTAL[pool] = ok
+    return ok
 
 
 def map_key(lit):
@@ -450,6 +510,49 @@ def templates():
         # def names an anonymous function; a member of a set / key of a map must still be found afterwards
         a(T(p + "-keys-after-def", "def [a, b, c] = S; println([idof(k) for k in keys M]); println([a in S, b in S, c in S]); "
             "for k in keys M do println(M[k]); end;", None, pool=p))
+    # ---- large collections (round 4): a site that switches to the host order above a size threshold
+    for p in BIG:
+        for name, body, prog, site in [
+            ("println-set", "println(S);", "render.set", "render.set"),
+            ("string-set", "println('' + string(S));", "render.set", "render.set"),
+            ("for-set", "for x in S do println([x]); end;", "for.set", "for.set"),
+            ("list-of-set", "println(list(S));", "aslist.set", "aslist.set"),
+            ("list-plus-set", "println([] + S);", "aslist.set", "aslist.set"),
+            ("spread-list-set", "println([...S]);", "spread.list.set", "spread.list.set"),
+            ("spread-call-set", "println(f(...S));", "spread.call.set", "spread.call.set"),
+            ("destr-def-set", "def [a, b, c] = S; println([a, b, c]);", "destr.def.set", "destr.def.set"),
+            ("destr-assign-set", "def a = 0; def b = 0; def c = 0; [a, b, c] = S; println([a, b, c]);", "destr.assign.set",
+             "destr.assign.set"),
+            ("destr-for", "for [a, b, c] in [S] do println([a, b, c]); end;", "destr.for.list", "destr.for.list"),
+            ("lcompr-set", "println([x for x in S]);", "compr.set", "compr.set"),
+            ("scompr-set", "def r = <<lg([x]) for x in S>>;", "compr.set", None),
+            ("first-of-spread", "println([...S][0]);", "spread.list.set+first", None),
+            ("native-sorted-const", "println(sorted(S, key = fn(x) 0));", "native.set", "native.set"),
+            ("println-map", "println(M);", "render.map", "render.map"),
+            ("for-map-keys", "for k in keys M do println([k]); end;", "for.map.keys", "for.map"),
+            ("for-map-values", "for v in values M do println(v); end;", "for.map.values", "for.map"),
+            ("for-map-entries", "for e in entries M do println(e); end;", "for.map.entries", "for.map"),
+            ("lcompr-map-keys", "println([k for k in keys M]);", "compr.map.keys", "compr.map.keys"),
+            ("lcompr-map-values", "println([v for v in values M]);", "compr.map.values", "compr.map.values"),
+            ("lcompr-map-entries", "println([e for e in entries M]);", "compr.map.entries", "compr.map.entries"),
+            ("spread-list-map", "println([...M]);", "spread.list.map", "spread.list.map"),
+            ("list-of-map", "println(list(M));", "aslist.map", "aslist.map"),
+            ("set-of-map", "println(set(M));", "asset.map+render", None),
+            ("object-of-map", "println(object(M));", "asobject.map", "asobject.map"),
+            ("native-sorted-map", "println(sorted(M, key = fn(x) 0));", "aslist.map", "native.map"),
+            ("nested", "println([<<S>>, [M], <<<1 => S>>>, <*a = S*>]);", None, None),
+            ("set-ops", "println(S + <<0>>); println(S - <<0>>); println(list(S + [0]));", None, None),
+            ("natives", "println([List->first(S), min(S), max(S), List->first(List->reverse(S)), length(S), "
+                        "List->first(enumerate(S)), List->first(List->filter(S, fn(y) TRUE))]); "
+                        "Random->set_seed(5); println([Random->choice(S) for i in range(4)]);", None, None),
+            ("join", "println(String->join([string(x) for x in S], ','));", None, None),
+        ]:
+            a(T(f"{p}-{name}", body, prog, site, pool=p))
+    # an uncaught error below a call that was handed the large set and map: what ckl.run prints (stack-trace lines)
+    a(T("big120s-uncaught-trace", "def g(group, m, limit) do if length(group) > limit then error 'boom'; return TRUE; end;\n"
+        "g(S, M, 100);", None, None, pool="big120s", solo=True))
+    a(T("big1100i-uncaught-trace", "def g(group, m, limit) do if length(group) > limit then error 'boom'; return TRUE; end;\n"
+        "g(S, M, 100);", None, None, pool="big1100i", solo=True))
     # two members only (the smallest case)
     a(T("lambda-two-lcompr-set", "println([idof(x) for x in S]);", "compr.set", "compr.set", pool="lambda", n=2))
     a(T("hidden-two-for-set", "for x in S do println(idof(x)); end;", "for.set", "for.set", pool="hidden", n=2))
@@ -500,6 +603,10 @@ class Batch:
             if not spec.get("single"):
                 lines.append("def M = <<<" + ", ".join(f"F[{at[r]}] => '{VALW[val_of(r) - 101]}'" for r in order) + ">>>;")
                 lines.append("def L = [" + ", ".join(f"F[{at[r]}]" for r in order) + "];")
+        elif self.pool in BIG:
+            mem = big_members(self.pool)
+            lines.append("def S = <<" + ", ".join(mem[r][0] for r in order) + ">>;")
+            lines.append("def M = <<<" + ", ".join(f"{mem[r][0]} => '{self.words[r]}'" for r in order) + ">>>;")
         else:
             pool = MIXED[self.pool]
             lines.append("def S = <<" + ", ".join(pool[r][0] for r in order) + ">>;")
@@ -519,6 +626,7 @@ class Batch:
     def solo_of(self, t):
         b = Batch(f"{self.bid}/{t.tid}", [t], self.pool, self.elems, self.orders, self.tokens, self.rankable, t.solo)
         b.words = self.words
+        b.light = getattr(self, "light", False)
         return b
 
 
@@ -652,6 +760,15 @@ def make_batch(bid, ts, pool, rng, norders, n=None):
         plain = set(rng.sample(words, nplain))
         elems = sorted(w if w in plain else ALIKE_BASE + w for w in words)
         return Batch(bid, ts, pool, elems, orders_of(elems, rng, norders), alike_tokens(elems), True)
+    if pool in BIG:
+        mem = big_members(pool)
+        base = list(range(len(mem)))                  # index r = member of rank r + 1 = element BIG_BASE + r + 1
+        tokens = {m[1]: BIG_BASE + r + 1 for r, m in enumerate(mem)}
+        tokens.update({w: 100 + i for i, w in enumerate(BIGVALW)})
+        b = Batch(bid, ts, pool, [BIG_BASE + r + 1 for r in base], orders_of(base, rng, norders), tokens, big_rankable(pool))
+        b.light = len(mem) > 500
+        b.words = {r: BIGVALW[val_of(BIG_BASE + r + 1) - 100] for r in base}
+        return b
     pl = MIXED[pool]
     ranks = mixed_ranks(pool)
     base = list(range(len(pl)))                       # indices into the pool
@@ -688,6 +805,15 @@ def make_batches(ts, rng, norders, nstr, reps):
             for p in MIXED:
                 g = [t for t in ts if t.pool == p]
                 out.append(make_batch(f"r{rep}m-{p}", g, p, rng, norders))
+        if rep == 0:
+            for p in BIG:
+                g = [t for t in ts if t.pool == p and not t.solo]
+                out.append(make_batch(f"r{rep}g-{p}", g, p, rng, norders))
+                for t in ts:
+                    if t.pool == p and t.solo:
+                        b = make_batch(f"r{rep}g-{t.tid}", [t], p, rng, norders)
+                        b.solo = True
+                        out.append(b)
         for pi, p in enumerate(ALIKE):
             g = [t for t in ts if t.pool == p and not t.n]
             out.append(make_batch(f"r{rep}a-{p}", g, p, rng, norders, n=(3, 4, 5, 6)[(pi + rep) % 4]))
@@ -700,7 +826,12 @@ def make_batches(ts, rng, norders, nstr, reps):
 _TOKEN_RE = {}
 
 
+_WORD = re.compile(r"[A-Za-z0-9_]+")
+
+
 def tokenize(tokens, text):
+    if len(tokens) > 100:            # the large pools: members are single words / numbers
+        return [tokens[w] for w in _WORD.findall(text) if w in tokens]
     key = tuple(sorted(tokens))
     rx = _TOKEN_RE.get(key)
     if rx is None:
@@ -739,9 +870,11 @@ def execute(batches, seeds, legacy_seeds, workers=16):
                 os.makedirs(d)
                 with open(os.path.join(d, "t.ckl"), "w", encoding="utf-8") as f:
                     f.write(b.script(order))
-                for sd in seeds:
+                oi = [on for on, _ in b.orders].index(oname)
+                light = getattr(b, "light", False)     # 1 100 members: every seed on one order, the other orders once
+                for sd in (seeds if not light or oi == 0 else seeds[oi:oi + 1]):
                     jobs.append((b.bid, False, oname, sd, d))
-                for sd in legacy_seeds:
+                for sd in (legacy_seeds if not light else legacy_seeds[:1] if oi == 1 else []):
                     jobs.append((b.bid, True, oname, sd, d))
         res = {}
         with ThreadPoolExecutor(max_workers=workers) as ex:
@@ -842,6 +975,7 @@ def observe(batches, seeds, legacy_seeds):
             if rnd == 0 and len(ts) > 1:
                 rest = Batch(bid + "/rest", ts, b.pool, b.elems, b.orders, b.tokens, b.rankable, False)
                 rest.words = b.words
+                rest.light = getattr(b, "light", False)
                 units.append(rest)
             else:
                 units += [b.solo_of(t) for t in ts]
@@ -879,13 +1013,16 @@ def tlc_predict(run, table, label):
 
 def vary_of(run, res, label):
     run.add_tlc(res, label)
-    vary = {"plain": {}, "alike": {}, "near": {}}
+    vary = {"plain": {}, "alike": {}, "near": {}, "big": {}}
     for v in res.records("VARY"):
         # a witness whose collection holds two members that render alike (two near-duplicate strings) says nothing
         # about plain collections
         folds = [NEAR_BASE + 1 + 2 * ((e - NEAR_BASE - 1) // 2) for e in v["ord"] if NEAR_BASE < e <= ALIKE_BASE]
         cls = ("alike" if sum(1 for e in v["ord"] if ALIKE_BASE < e < 100) >= 2
                else "near" if len(folds) != len(set(folds)) else "plain")
+        if cls == "plain" and len(v["ord"]) > BIG_ABOVE:
+            # a collection of plain members above the model's size threshold (OrderOps!BigAbove)
+            cls = "big"
         if v["prog"] not in vary[cls] or len(v["ord"]) < len(vary[cls][v["prog"]]["ord"]):
             vary[cls][v["prog"]] = v
     return vary
@@ -931,6 +1068,7 @@ def judge(run, obs, owner, extra=()):
     varying = {}          # tid -> [(bid, legacy, distinct)]
     trace_lines = []
     trace_meta = []
+    big_lines = {}        # large collections: the same observation of the same template (legacy mode) is validated once
     for (tid, bid, legacy), runs in sorted(obs.items()):
         b = owner[(tid, bid)]
         t = [t for t in b.ts if t.tid == tid][0]
@@ -945,7 +1083,14 @@ def judge(run, obs, owner, extra=()):
                     # the interpreter itself failed (host exception): not an enumeration order; C13's subject
                     run.drift("template-ends-in-host-exception", {"template": tid, "stderr": o[1].strip().splitlines()[-1:]})
                     continue
-                trace_lines.append({"prog": t.prog, "elems": model_elems(b, t), "obs": to_ints(b, t, o), "n": len(where)})
+                line = {"prog": t.prog, "elems": model_elems(b, t), "obs": to_ints(b, t, o), "n": len(where)}
+                if b.pool in BIG:
+                    k = (tid, bid, tuple(line["obs"]))
+                    if k in big_lines:
+                        big_lines[k]["n"] += len(where)
+                        continue
+                    big_lines[k] = line
+                trace_lines.append(line)
                 trace_meta.append((tid, b, legacy, o, where))
     n_own = len(trace_lines)
     trace_lines += [ex[0] for ex in extra]
@@ -1061,9 +1206,45 @@ def directed_calls(pool):
     return out
 
 
+# never applied to the large collections: the number of results grows faster than any bound
+BIG_SKIP = {"permutations"}
+
+
+def directed_calls_big():
+    """stack-trace lines (and error values) of calls that were handed a LARGE set / map"""
+    return [
+        # head3: the first three members (key, word, key) are complete within the 50 characters of the excerpt
+        ("d:trace-set", "do def g(s) error 'boom'; g(S); end", "trace.set.head", "head3"),
+        ("d:trace-set-2", "do def g(s, n) error 'boom'; g(S, 1); end", None, None),
+        ("d:trace-map", "do def g(m) error 'boom'; g(M); end", "trace.map.head", "head3"),
+        ("d:trace-nested", "do def g3(s, m, rest...) sum(s); def g2(s, m) g3(s, m, s, [m], <<s>>); "
+                           "def g1(s) do def r = g2(s, M); return r; end; g1(S); end", None, None),
+        ("d:trace-method", "do def o = <*g = fn(self, s, m = NULL) error 'boom'*>; o->g(S, m = M); end", None, None),
+        ("d:trace-inside", "do def g(a, b, c, d) error 'boom'; g([S], <<S>>, <<<1 => M>>>, <*a = S, b = M*>); end", None, None),
+        ("d:trace-spread", "do def g(args...) error 'boom'; g(...S); end", None, None),
+        ("d:trace-lambda", "(fn(s, m) error 'boom')(S, M)", None, None),
+        ("d:error-value", "error S", None, None),
+        ("d:error-value-map", "error M", None, None),
+        ("d:reduce-set", "List->reduce(S, fn(a, b) string(a) + '/' + string(b))", None, None),
+        ("d:reduce-list-of-set", "List->reduce(list(S), fn(a, b) string(a) + '/' + string(b))", None, None),
+        ("d:string-concat", "do def t = ''; for x in S do t += string(x); end; t; end", None, None),
+        ("d:rng-choices", "Random->set_seed(3); [Random->choice(S), Random->choices(S, 3), Random->sample(S, 3), "
+                          "Random->choice(list(M))]", None, None),
+    ]
+
+
+TRACE_SET_CALLS = ("d:trace-set", "d:trace-set-2", "d:trace-set-long", "d:trace-nested", "d:trace-method", "d:trace-inside",
+                   "d:trace-spread", "d:trace-lambda")
+TRACE_MAP_CALLS = ("d:trace-map", "d:trace-nested", "d:trace-method", "d:trace-inside", "d:trace-lambda")
+
+
 def call_prelude(b, order):
     lines = ["require " + "; require ".join(calls_mod.MODULES) + ";"]
-    if b.pool == "str":
+    if b.pool in BIG:
+        mem = big_members(b.pool)
+        lines.append("def mkS() <<" + ", ".join(mem[r][0] for r in order) + ">>;")
+        lines.append("def mkM() <<<" + ", ".join(f"{mem[r][0]} => '{b.words[r]}'" for r in order) + ">>>;")
+    elif b.pool == "str":
         t3 = set(sorted(b.elems)[1:4])
         lines.append("def mkT() <<" + ", ".join(f"'{KEYW[r - 1]}'" for r in order if r in t3) + ">>;")
         lines.append("def mkS() <<" + ", ".join(f"'{KEYW[r - 1]}'" for r in order) + ">>;")
@@ -1109,6 +1290,24 @@ def call_groups(rng, quick, funcs):
                        "fresh": CALL_FRESH_STR if pool == "str" else CALL_FRESH, "calls": cl,
                        "runs": runs, "limit": 10,
                        "fname": {cid: f for cid, _, f in sweep}, "directed": {d[0]: d for d in directed}})
+    # round 4: the large collections: every function with one argument (S, M, [S], [M]: whatever the native does, an
+    # error it raises shows the argument in its stack-trace line), the directed calls
+    for pool in BIG:
+        b = make_batch("calls-" + pool, [], pool, rng, 3 if quick else 6)
+        # quick tier: the sweep over 1 100 members with the strings only (for the ints the directed calls)
+        sweep = ([] if quick and pool == "big1100i" else
+                 calls_mod.sweep_calls([f for f in funcs if f[0].split("->")[-1] not in BIG_SKIP], max_args=1))
+        directed = directed_calls_big()
+        cl = [(cid, src) for cid, src, _ in sweep] + [(cid, src) for cid, src, _, _ in directed]
+        names = [on for on, _ in b.orders]
+        nseeds = (4 if b.light else 8) if quick else (8 if b.light else 32)
+        runs = [(names[0], sd, False) for sd in range(nseeds)]
+        runs += [(on, 2 + 3 * i, False) for i, on in enumerate(names[1:])]
+        runs += [(names[1], 6, True)]
+        groups.append({"gid": "calls-" + pool, "pool": pool, "batch": b,
+                       "prelude": {on: call_prelude(b, o) for on, o in b.orders},
+                       "fresh": CALL_FRESH, "calls": cl, "runs": sorted(set(runs)), "limit": 10,
+                       "fname": {cid: f for cid, _, f in sweep}, "directed": {d[0]: d for d in directed}})
     return groups
 
 
@@ -1134,6 +1333,11 @@ def call_trace_line(g, cid, outcome):
             else:
                 obs.append(int(x) if re.fullmatch(r"-?\d{1,9}", x) else -1)
         return {"prog": "@rng", "seed": how, "draws": [list(d) for d in RNG_DRAWS], "obs": obs, "elems": [], "n": 0}
+    if how == "head3":
+        lines = [ln for ln in text.split("\n")[1:] if ln.startswith("g(")] if kind == "err" else []
+        if len(lines) != 1 or "... " not in lines[0]:
+            return None                      # no stack-trace line of g, or the argument is not abbreviated
+        return {"prog": prog, "elems": b.elems, "obs": tokenize(b.tokens, lines[0].split("... ")[0])[:3], "n": 0}
     if how == "trace3":
         if kind != "err":
             return None
@@ -1244,12 +1448,13 @@ def run(run):
     norders = 3 if quick else 6
     reps = 1 if quick else 3           # repetitions with other element subsets
     # the three model runs that do not depend on the observations go on beside the interpreter processes
-    tlc_pool = ThreadPoolExecutor(max_workers=6)
+    tlc_pool = ThreadPoolExecutor(max_workers=7)
     f_spec = tlc_pool.submit(run_tlc, "Order", "Order" if quick else "Order_thorough", coverage=True, timeout=1800, workers=8)
     f_raw = tlc_pool.submit(run_tlc, "Order", "Order_allraw", coverage=False, timeout=1800, workers=3)
     f_render = tlc_pool.submit(run_tlc, "Order", "Order_byrender", coverage=False, timeout=1800, workers=3)
     f_fold = tlc_pool.submit(run_tlc, "Order", "Order_byfold", coverage=False, timeout=1800, workers=3)
     f_rng = tlc_pool.submit(run_tlc, "Order_Rng", "Order_Rng", coverage=True, timeout=1800, workers=2)
+    f_big = tlc_pool.submit(run_tlc, "Order", "Order_bigraw", coverage=False, timeout=1800, workers=3)
     ts = templates()
     batches = make_batches(ts, rng, norders, 6, reps)
     cgroups = call_groups(rng, quick, calls_mod.functions_of_tree())
@@ -1259,6 +1464,7 @@ def run(run):
         call_results, ncallproc = f_calls.result()
         progs = tlc_programs(run, f_spec.result())
         res_raw, res_render, res_fold, res_rng = f_raw.result(), f_render.result(), f_fold.result(), f_rng.result()
+        res_big = f_big.result()
     finally:
         tlc_pool.shutdown(wait=True)
     for t in ts:
@@ -1279,9 +1485,10 @@ def run(run):
     sites = sorted({s for p in progs.values() for s in p["sites"]})
     direct = {}
     direct_alike = {}
+    direct_big = {}
     for t in ts:
         if t.site:
-            (direct_alike if t.pool in ALIKE else direct).setdefault(t.site, []).append(t.tid)
+            (direct_alike if t.pool in ALIKE else direct_big if t.pool in BIG else direct).setdefault(t.site, []).append(t.tid)
     near_at = {}                     # site -> templates over near-duplicate strings that go through it
     for t in ts:
         if t.pool in NEAR and t.prog in progs:
@@ -1307,21 +1514,41 @@ def run(run):
             table[site] = "raw" if any(c in sweep_str for c in cids) else "sorted"
             if site in unobservable:
                 unobservable.remove(site)
+    # round 4: a site that looks sorted on the small pools and shows the internal order of a LARGE collection
+    # switches with the size: "rawbig"
+    sweep_big = set().union(*[call_flagged.get("calls-" + p, set()) for p in BIG])
+    big_seen = {s: [tid for tid in direct_big.get(s, []) if tid in flagged] for s in sites}
+    big_seen["trace.set"] = sorted(c for c in TRACE_SET_CALLS if c in sweep_big) + [
+        t for t in flagged if t.endswith("-uncaught-trace")]
+    big_seen["trace.map"] = sorted(c for c in TRACE_MAP_CALLS if c in sweep_big) + [
+        t for t in flagged if t.endswith("-uncaught-trace")]
+    switches_at = sorted(s for s in sites if table[s] == "sorted" and big_seen.get(s))
+    table_small = dict(table)
+    for s in switches_at:
+        table[s] = "rawbig"
     ties_leak_at = sorted(s for s in sites if table[s] == "sorted"
                           and any(tid in flagged for tid in direct_alike.get(s, [])))
-    table["relation"] = "render" if ties_leak_at else "total"
+    table["relation"] = table_small["relation"] = "render" if ties_leak_at else "total"
     folds_leak_at = sorted(s for s in sites if table[s] == "sorted" and any(tid in flagged for tid in near_at.get(s, [])))
-    table["strings"] = "folded" if folds_leak_at else "exact"
-    predicted = tlc_predict(run, table, "Order: Site table derived from the observations; which programs can vary")
+    table["strings"] = table_small["strings"] = "folded" if folds_leak_at else "exact"
+    # the pools of members that render alike / near-duplicates hold <= 9 members, in the model's scale they are not
+    # big: they are compared with the prediction for the table without the size switch
+    predicted = tlc_predict(run, table_small, "Order: Site table derived from the observations; which programs can vary")
+    if switches_at:
+        predicted["big"] = tlc_predict(run, table, "Order: the table with the sites that switch above a size threshold "
+                                                   "(rawbig); which programs can vary on big collections")["big"]
     seen_by_prog = {}
     for t in ts:
-        if t.prog is not None and (t.pool == "str" or t.pool in ALIKE or t.pool in NEAR):
-            cls = "alike" if t.pool in ALIKE else "near" if t.pool in NEAR else "plain"
+        if t.prog is not None and (t.pool == "str" or t.pool in ALIKE or t.pool in NEAR or t.pool in BIG):
+            cls = "alike" if t.pool in ALIKE else "near" if t.pool in NEAR else "big" if t.pool in BIG else "plain"
             seen_by_prog.setdefault((t.prog, cls), []).append(t.tid in flagged)
+    # the stack-trace lines of calls handed a large set / map (call channel) are the programs trace.set / trace.map
+    seen_by_prog[("trace.set", "big")] = [bool(big_seen["trace.set"])]
+    seen_by_prog[("trace.map", "big")] = [bool(big_seen["trace.map"])]
     agree = 0
     for (pid, cls), flags in sorted(seen_by_prog.items()):
         # a collection of alike members (of near-duplicates) also shows whatever plain collections show
-        says = pid in predicted[cls] or (cls != "plain" and pid in predicted["plain"])
+        says = pid in predicted[cls] or (cls not in ("plain", "big") and pid in predicted["plain"])
         if says == any(flags):
             agree += 1
         else:
@@ -1333,14 +1560,23 @@ def run(run):
     for s in sites:
         if not any(s in progs[p]["sites"] for p in allraw):
             run.drift("site-never-observable", s)
+    # every site switching to the host order above the size threshold: nothing shows up to that size (SmallBlind,
+    # BigOnly are invariants of that configuration), the same programs leak above it
+    bigraw = vary_of(run, res_big, "Order: every site raw above the size threshold only (rawbig); SmallBlind, BigOnly; "
+                                   "which programs let the order of a big collection through")
+    if bigraw["plain"]:
+        raise MachineryError("Order.tla: a collection below the size threshold varies under the rawbig table")
+    if set(bigraw["big"]) != set(allraw):
+        run.drift("model-programs-leaking-above-the-threshold-differ-from-all-raw",
+                  sorted(set(bigraw["big"]) ^ set(allraw)))
     # which programs show the internal order when every site sorts, but by the renderings alone
     byrender = vary_of(run, res_render, "Order: every site sorted by the renderings alone; where do ties leak")
-    if byrender["plain"]:
+    if byrender["plain"] or byrender["big"]:
         raise MachineryError("Order.tla: a collection without two alike members varies although every site sorts")
     tie_masked = sorted(p for p in progs if p not in byrender["alike"])
     # ... and when strings are compared after folding
     byfold = vary_of(run, res_fold, "Order: every site sorted, strings compared after folding; where do near-duplicates leak")
-    if byfold["plain"] or byfold["alike"]:
+    if byfold["plain"] or byfold["alike"] or byfold["big"]:
         raise MachineryError("Order.tla: a collection without two near-duplicate strings varies although every site sorts")
     fold_masked = sorted(p for p in progs if p not in byfold["near"])
     # ---- the seeded generator: the table Source (kind of draw -> "seeded" | "host"), derived like the sites
@@ -1369,6 +1605,9 @@ def run(run):
     for p in MIXED:
         if mixed_ranks(p) is None:
             run.drift("language-order-not-total-on-pool", {"pool": p, "why": _WHY.get(p, "")})
+    for p in BIG:
+        if not big_rankable(p):
+            run.drift("language-order-not-total-on-pool", {"pool": p, "why": _WHY.get(p, "")})
 
     k0 = next(k for k in sorted(obs) if k[2] is False and k[0] == batches[0].ts[0].tid)
     b0 = owner[(k0[0], k0[1])]
@@ -1387,7 +1626,8 @@ def run(run):
     run.sample({"programs_where_a_raw_order_is_masked": masked,
                 "programs_where_ties_between_alike_members_are_masked": tie_masked,
                 "programs_where_ties_between_near_duplicate_strings_are_masked": fold_masked,
-                "sites_where_ties_leak": ties_leak_at, "sites_where_near_duplicates_leak": folds_leak_at})
+                "sites_where_ties_leak": ties_leak_at, "sites_where_near_duplicates_leak": folds_leak_at,
+                "sites_that_switch_above_a_size_threshold": {s: big_seen[s][:4] for s in switches_at}})
     g0 = cgroups[1]
     r0 = sorted(call_results[g0["gid"]].items())[0]
     run.sample({"call_channel": {"prelude": g0["prelude"][r0[0][0]], "fresh": g0["fresh"],
@@ -1410,6 +1650,10 @@ def run(run):
     run.cov["call_channel"] = dict(call_stats, processes=ncallproc, functions=len({f for g in cgroups for f in g["fname"].values()}),
                                    runs_per_pool=len(cgroups[0]["runs"]))
     run.cov["rng_source"] = source
+    run.cov["large_collections"] = {p: {"members": BIG[p][1], "kind": BIG[p][0],
+                                        "templates": sum(1 for t in ts if t.pool == p),
+                                        "calls": sum(len(g["calls"]) for g in cgroups if g["pool"] == p),
+                                        "call_processes": sum(len(g["runs"]) for g in cgroups if g["pool"] == p)} for p in BIG}
     run.cov["templates"] = len(ts)
     run.cov["model_programs"] = len(progs)
     run.cov["model_programs_with_template"] = len(covered)
@@ -1439,6 +1683,8 @@ def run(run):
         "created in rank order before the set is built, in every construction order) and the order of the hidden "
         "member for objects; the oracle proper is that all runs agree",
         "an object whose _str_ imitates the rendering of a value of another type is not generated",
+        "size thresholds: collections of 120 and 1 100 members (strings; sparse ints, whose host order follows the "
+        "construction order only); a switch above 1 100 members is not reached; List->permutations is not applied to them",
     ]
 
 
